@@ -106,6 +106,19 @@ def execute(W, op):
             del W.get(op["e"])[".NS"]
         elif t == "setDefault":
             namespace_manager.default = op["pol"]
+        elif t == "createIn":
+            p = W.get(op["p"])
+            kind = op["c"][0]
+            meth = {"library": "create_library", "definition": "create_definition", "port": "create_port", "cable": "create_cable", "instance": "create_child"}[kind]
+            kw = {}
+            if op.get("name") is not None:
+                kw["name"] = op["name"]
+            if op.get("ident") is not None:
+                kw["properties"] = {"EDIF.identifier": op["ident"]}
+            o = getattr(p, meth)(**kw)
+            W.objs[kind][op["c"][1]] = o
+            W.lab[id(o)] = (kind, op["c"][1])
+            W.keep.append(o)
         else:
             raise RuntimeError("executor: unknown names op " + t)
         return "ok"
@@ -247,6 +260,12 @@ def gen_op(rng, W):
         if kinds:
             k = rng.choice(kinds)
             return {"t": "create", "e": [k, len(by[k])]}
+    if r < 0.26:
+        ck = rng.choice(["library", "definition", "port", "cable", "instance"])
+        pk = {"library": "netlist", "definition": "library"}.get(ck, "definition")
+        if by[pk] and len(by[ck]) < MAXN[ck] + 2:
+            return {"t": "createIn", "p": rng.choice(by[pk]), "c": [ck, len(by[ck])],
+                    "name": rng.choice(NAMES + [None]), "ident": rng.choice(IDENTS + [None, None])}
     if r < 0.40:
         # attach a child to a compatible parent (often already-owned -> assert)
         ck = rng.choice(["library", "definition", "port", "cable", "instance"])
@@ -318,7 +337,7 @@ def scenario_prefix(rng):
             {"t": "setKey", "e": [leafk, 2], "k": "ident", "v": "AB"}, {"t": "attach", "p": ["definition", 0], "c": [leafk, 2]}]
 
 
-def run_script(ops_or_len, rng, drv, res, fast=True):
+def run_script(ops_or_len, rng, drv, res, fast=True, c14=False):
     W = NWorld()
     namespace_manager.default = "DEFAULT"
     drv.ask({"cmd": "nreset"})
@@ -330,13 +349,23 @@ def run_script(ops_or_len, rng, drv, res, fast=True):
     try:
         for k in range(n):
             op = (prefix[k] if k < len(prefix) else gen_op(rng, W)) if gen else ops_or_len[k]
-            if op["t"] != "create" and any(W.get(op[f]) is None for f in ("e", "p", "c") if f in op):
+            if op["t"] == "createIn":
+                if W.get(op["p"]) is None or W.get(op["c"]) is not None:
+                    continue
+            elif op["t"] != "create" and any(W.get(op[f]) is None for f in ("e", "p", "c") if f in op):
                 continue        # shrinking removed the create op of an operand
             if op["t"] == "create" and W.get(op["e"]) is not None:
                 continue
             script.append(op)
             exp = expected_refusal(W, op)
+            snap0 = (dump_impl(W), [(q[0], q[1], q[2], q[3], q[4]) for q in queries(W, drv, rng, full=True)]) if c14 else None
             out = execute(W, op)
+            if c14 and out != "ok":
+                snap1 = (dump_impl(W), [(q[0], q[1], q[2], q[3], q[4]) for q in queries(W, drv, rng, full=True)])
+                if snap1 != snap0:
+                    what = "element data / containment / tables" if snap1[0] != snap0[0] else "lookup answers"
+                    findings.append({"kind": "spec", "prop": "C14", "signature": "names.%s.refused_%s.state_changed" % (op["t"], out),
+                                     "step": len(script) - 1, "detail": "refused call changed %s" % what})
             m = drv.ask({"cmd": "nop", "op": {kk: v for kk, v in op.items() if kk not in ("via_prop", "assign_none")}})
             if "error" in m:
                 raise RuntimeError("driver rejected %r: %s" % (op, m["error"]))
@@ -382,7 +411,7 @@ def shrink(script, sig, drv):
 
     def fails(s):
         try:
-            f, _ = run_script(s, random.Random(0), drv, res)
+            f, _ = run_script(s, random.Random(0), drv, res, c14=sig.startswith("names."))
         except Exception:  # noqa: BLE001
             return False
         return any(x["signature"] == sig for x in f)
@@ -399,8 +428,10 @@ def shrink(script, sig, drv):
 KNOWN_CORR = {}
 
 
-def handle(ops_or_len, rng, drv, res, origin):
-    findings, script = run_script(ops_or_len, rng or random.Random(0), drv, res)
+def handle(ops_or_len, rng, drv, res, origin, pid="C10"):
+    findings, script = run_script(ops_or_len, rng or random.Random(0), drv, res, c14=(pid == "C14"))
+    # a spec failure is reported by the check of the property it belongs to
+    findings = [f for f in findings if f["kind"] == "corr" or f.get("prop", "C10") == pid]
     res.case(stable_hash(script), nontrivial=sum(1 for o in script if o["t"] in ("attach", "setKey")) >= 3)
     res.sample({"origin": origin, "length": len(script), "first_ops": script[:8]})
     seen = set()
@@ -427,10 +458,12 @@ def shard(pid, tier, seed, idx, n_scripts, length, registered):
         if idx == 0 and os.path.isdir(cdir):
             for fn in sorted(os.listdir(cdir)):
                 if fn.endswith(".json"):
-                    handle(json.load(open(os.path.join(cdir, fn)))["script"], None, drv, res, "corpus:" + fn)
+                    item = json.load(open(os.path.join(cdir, fn)))
+                    if item.get("engine", "irnames" if pid == "C10" else "ir") == "irnames":
+                        handle(item["script"], None, drv, res, "corpus:" + fn, pid)
         for j in range(n_scripts):
             rng = random.Random(stable_hash([seed, pid, idx, j]))
-            handle(rng.randint(length // 2, length), rng, drv, res, "gen")
+            handle(rng.randint(length // 2, length), rng, drv, res, "gen", pid)
     finally:
         drv.close()
     return res
